@@ -83,6 +83,9 @@ struct CancelTwin {
     drain_left: usize,
     reissued: bool,
     pub request_ops: Vec<usize>,
+    /// after a cancelled disconnect(): call poll() once before calling disconnect() again
+    poll_before_reissue: bool,
+    pub polled_before_reissue: bool,
 }
 
 fn with_cancel(s: &Step, at: Option<usize>) -> Step {
@@ -110,6 +113,7 @@ impl Driver for CancelTwin {
                     self.request_ops.push(v.log.ops.len());
                     if let Some(at) = self.cancels.pop_front() {
                         self.stage = 1;
+                        self.poll_before_reissue = matches!(self.request, Step::Disconnect(_)) && at % 2 == 1;
                         return Some(with_cancel(&self.request, Some(at)));
                     }
                     self.stage = 3;
@@ -148,6 +152,13 @@ impl Driver for CancelTwin {
                     // the application still wants its request: it simply calls again (polling in
                     // between would legitimately reorder the request against reaction packets)
                     let needs = matches!(self.request, Step::Publish(_) | Step::Subscribe(_) | Step::Unsubscribe(_) | Step::Disconnect(_));
+                    // (an application that gave up on a disconnect() may as well poll first: the
+                    // connection then ends there, and calling disconnect() again is a no-op)
+                    if self.poll_before_reissue && v.has_handle {
+                        self.poll_before_reissue = false;
+                        self.polled_before_reissue = true;
+                        return Some(Step::Poll { max_wait: 0, cancel_at: None });
+                    }
                     self.stage = 3;
                     self.drain_left = 60;
                     if needs && !self.reissued {
@@ -315,9 +326,11 @@ impl Check for C13 {
             prefix.push(Step::Advance(eff - 5_000_000u64.min(eff / 2) + 1));
             out.count("requests_issued_with_pingreq_due", 1);
         }
+        let polled_flag = std::cell::Cell::new(false);
         let run = |cancels: Vec<usize>| -> (RunLog, Shared, Vec<usize>) {
-            let mut d = CancelTwin { prefix: prefix.clone().into(), request: request.clone(), cancels: cancels.into(), stage: 0, drain_left: 0, reissued: false, request_ops: vec![] };
+            let mut d = CancelTwin { prefix: prefix.clone().into(), request: request.clone(), cancels: cancels.into(), stage: 0, drain_left: 0, reissued: false, request_ops: vec![], poll_before_reissue: false, polled_before_reissue: false };
             let (log, world) = run_case(&cfg, seed, &mut d, prefix.len() + 400);
+            polled_flag.set(d.polled_before_reissue);
             (log, world, d.request_ops)
         };
         // 2. reference
@@ -381,7 +394,32 @@ impl Check for C13 {
                 }
             }
             let before = out.violations.len();
-            if let Some((what, msg)) = diff(&a_obs, &b_obs) {
+            if polled_flag.get() {
+                // the application polled between the cancelled disconnect() and the next one: the
+                // poll may legitimately send other owed packets (replays, acknowledgements, PINGREQ)
+                // first, so only this is demanded: every stream still decodes, nothing the reference
+                // sent is missing or reordered, and the connection still ends with the same DISCONNECT
+                out.count("disconnects_resumed_after_a_poll", 1);
+                let mut bad: Option<String> = None;
+                for (ci, (pa, pb)) in a_obs.packets.iter().zip(&b_obs.packets).enumerate() {
+                    if bw.conns[ci].out.error.is_some() {
+                        bad = Some(format!("conn {}: the outbound stream no longer decodes: {:?}", ci, bw.conns[ci].out.error));
+                        break;
+                    }
+                    let mut it = pb.iter();
+                    if let Some(miss) = pa.iter().find(|x| !it.any(|y| y == *x)) {
+                        bad = Some(format!("conn {}: {} of the uncancelled run is missing or out of order", ci, describe(miss)));
+                        break;
+                    }
+                    if pa.last().is_some_and(|x| x.first() == Some(&0xE0)) && pb.last() != pa.last() {
+                        bad = Some(format!("conn {}: does not end with the DISCONNECT of the uncancelled run", ci));
+                        break;
+                    }
+                }
+                if let Some(msg) = bad {
+                    out.violations.push(viol("C13", "C13/disconnect/poll-after-cancelled-disconnect", format!("request disconnect cancelled at await {:?}, then poll(), then disconnect(): {}", cancels, msg)));
+                }
+            } else if let Some((what, msg)) = diff(&a_obs, &b_obs) {
                 let partial = bops.iter().any(|o| blog.ops[*o].outcome == Outcome::Cancelled && blog.ops[*o].out_after > blog.ops[*o].out_before);
                 let sig = if kind == "disconnect" {
                     format!("C13/disconnect/{}", if partial { "cancelled-after-bytes-written" } else { what.as_str() })
